@@ -320,7 +320,7 @@ def run(tier):
         for th in (1, 4, 16):
             dis, gen, stats = machine_phase(ck, exe, "thr%d" % th, 1, "inflate", "all", 16,
                                             harness_opts=["threads=%d" % th, "infl=%d" % (64 if th > 1 else 32)],
-                                            nproc=max(1, min(NPROC, 16 // th)))
+                                            nproc=NPROC)
             states += dis
             trans += gen
             nodes += stats.get("nodes", 0)
